@@ -93,12 +93,10 @@ func TestMakeSeeds(t *testing.T) {
 	{
 		s := newSeed("kf-finalize", 1)
 		id := txgen.ProposalID("kf1")
-		s.block(s.create(id, governance.ProposalTypeGeneral, ""))
-		s.block(s.fund(id))
-		s.block(s.vote(id, 0))
+		s.block(s.create(id, governance.ProposalTypeGeneral, ""), s.fund(id))
+		s.block(s.vote(id, 0)) // votes are counted on committed vote records: not in the funding block
 		u := s.g.U.Users[5]
 		s.check("before-begin", txgen.ProposalFinalize(u, id, u.Addr, fee, s.memo()))
-		s.block()
 		s.block()
 		write(t, dir, "kf-finalize-skipped-after-checktx.json", s.tr)
 	}
@@ -119,8 +117,9 @@ func TestMakeSeeds(t *testing.T) {
 		s.block()
 		write(t, dir, "kf-feeoption-read-from-check-state.json", s.tr)
 	}
-	// 3. the realistic mempool flow: the vote that completes the proposal is checked (as every
-	// transaction is) right before the block that carries it.
+	// 3. regression shape that must pass: the vote that completes the proposal is checked (as every
+	// transaction is) right before the block that carries it. (Keys that exist only in the check
+	// state's cache are not iterated, so BeginBlock does not see the proposal as passed.)
 	{
 		s := newSeed("kf-vote", 1)
 		id := txgen.ProposalID("kf3")
@@ -131,7 +130,7 @@ func TestMakeSeeds(t *testing.T) {
 		s.block(v)
 		s.block()
 		s.block()
-		write(t, dir, "kf-completing-vote-checked-before-its-block.json", s.tr)
+		write(t, dir, "seed-completing-vote-checked-before-its-block.json", s.tr)
 	}
 	// 4. regression shape that must pass: the same checks at boundaries that are followed by a re-aim.
 	{
